@@ -309,12 +309,30 @@ func genC14(ctx *Ctx) {
 			case x == 10:
 				// control connection failover: it is closed, the proxy opens and registers another
 				// sometimes the first attempts get as far as REGISTER and then cannot read the system tables
-				if r.Intn(2) == 0 {
+				refuser := 0
+				switch r.Intn(3) {
+				case 0:
 					be.SetFailSystem(1 + r.Intn(3))
+				case 1:
+					// ... or the host that is tried next has stopped speaking the negotiated version (it answers v3 only): the
+					// attempt gets as far as REGISTER, is given up because the version differs, and the one after it succeeds
+					for h, n := range be.Registered() {
+						if n > 0 {
+							refuser = h%3 + 1
+						}
+					}
+					if refuser != 0 {
+						be.SetHostAccept(refuser, 3)
+						ctx.Count("failover-past-a-host-that-refuses-the-version")
+					}
 				}
 				be.DropRegistered()
 				time.Sleep(5 * time.Millisecond)
-				if !c14WaitRegistered(be) {
+				ok14 := c14WaitRegistered(be)
+				if refuser != 0 {
+					be.SetHostAccept(refuser)
+				}
+				if !ok14 {
 					panic("C14: no control connection came back")
 				}
 				time.Sleep(20 * time.Millisecond)
